@@ -13,6 +13,45 @@ RBS = ["off", "on", "lazy05", "lazy01", "lazy100", "incr", "incrms", "smart", "s
 TOGGLES = ["rb_off", "rb_on", "lazy_on", "lazy_off", "incr_on", "incr_off", "rebalance_all", "force_batch", "rebalance_ds"]
 
 
+def index_histories(ctx, n, nops):
+    """Histories on the name index itself (the structure the rebalancing modes act on) at the real node size: the leaf is
+    filled beyond half (so that deferred deletion defers), records are deleted, the index is written out and loaded
+    back at random points.  Inserting a present name is left out (the defect recorded under C14 is the same in every mode)."""
+    rng = random.Random(ctx.seed * 15485863 + 19)
+    cases = []
+    for k in range(n):
+        names = ["k%d" % i for i in range(rng.choice([200, 380, 450]))]
+        live, ops, snap = set(), [], None
+        fill = rng.choice([186, 200, 300, 365])
+        for i in range(nops):
+            r = rng.random()
+            grow = len(live) < fill or rng.random() < 0.4
+            if r < (0.75 if grow else 0.2):
+                free = [x for x in names if x not in live]
+                if not free:
+                    continue
+                nm = rng.choice(free)
+                ops.append({"op": "ins", "n": nm})
+                live.add(nm)
+            elif r < 0.8 and live:
+                ops.append({"op": "upd", "n": rng.choice(sorted(live))})
+            elif r < 0.93 and live:
+                nm = rng.choice(sorted(live))
+                ops.append({"op": "del", "n": nm})
+                live.discard(nm)
+            else:
+                o = rng.choice(["write", "load", "rebalance", "write"])
+                ops.append({"op": o, "n": ""})
+                if o == "write":
+                    snap = set(live)
+                elif o == "load" and snap is not None:
+                    live = set(snap)         # loading brings the last written image back
+            if len(live) > 370:      # beyond one leaf the index refuses: the model's capacity rule, the same in every mode
+                fill = 186
+        cases.append({"cfg": {"mode": ["lazy", "incremental", "rebal", "lazy", "immediate"][k % 5], "cap": 0, "style": 4}, "ops": ops})
+    return cases
+
+
 def run(ctx):
     thorough = ctx.tier == "thorough"
     # (b) selector: design model + generated decision sequences
@@ -33,6 +72,31 @@ def run(ctx):
     strace, sout = ctx.drive("c19sel", spath, trace_name="sel_trace.ndjson")
     H.log(sout.strip())
     sverdict, _ = ctx.validate("C19SelTrace.tla", "C19Sel_trace.cfg", strace)
+
+    # binding self-test of the selector trace specification
+    def _other_mode(evs):
+        for e in evs:
+            if e.get("op") == "decide" and e.get("res") == "ok":
+                e["outmode"] = {"none": "lazy", "lazy": "incremental", "incremental": "none"}[e["outmode"]]
+                return evs
+        return None
+
+    def _conf_out_of_range(evs):
+        for e in evs:
+            if e.get("op") in ("decide", "rule") and e.get("res") == "ok":
+                e["outconf"] = 101
+                return evs
+        return None
+
+    def _later_flip(evs):
+        ds = [e for e in evs if e.get("op") == "decide" and e.get("res") == "ok"]
+        if len(ds) < 2:
+            return None
+        e = ds[-1]
+        e["outmode"] = {"none": "lazy", "lazy": "incremental", "incremental": "none"}[e["outmode"]]
+        return evs
+    sel_selftest = H.binding_selftest(ctx, "C19SelTrace.tla", "C19Sel_trace.cfg", strace,
+                                      [("decision-altered", _other_mode), ("confidence-out-of-range", _conf_out_of_range), ("late-decision-altered", _later_flip)], max_cases=3000)
 
     # (a) content: the C02 histories under every rebalancing configuration, with toggles in the middle
     lines, gr = ctx.generate("C02Gen.tla", "C19_gen.cfg")
@@ -59,26 +123,46 @@ def run(ctx):
                         ops.append({"op": "toggle", "n": "", "v": rng.choice(TOGGLES)})
                 v["ops"] = ops
             cases.append(v)
+    # a nearly full index leaf under every configuration: here deferred deletion really defers (the leaf stays more than half full)
+    for c in c02.bulk_histories():
+        for rb in RBS:
+            v = copy.deepcopy(c)
+            v["cfg"]["rb"] = rb
+            cases.append(v)
     cpath = ctx.write_cases(cases)
     trace, out = ctx.drive("c02", cpath)
     H.log(out.strip())
     verdict, _ = ctx.validate("C02Trace.tla", "C02_trace.cfg", trace)
 
-    bad = verdict["bad"] + sverdict["bad"]
+    # (c) the name index itself under each mode (immediate = the default): content after write-out and load-back equals KVIndex
+    icases = index_histories(ctx, 40 if thorough else 10, 2500 if thorough else 900)
+    ipath = ctx.write_cases(icases, "index_cases.ndjson")
+    itrace, iout = ctx.drive("c14", ipath, trace_name="index_trace.ndjson")
+    H.log(iout.strip())
+    iverdict, _ = ctx.validate("C14Trace.tla", "C14_trace.cfg", itrace)
+
+    bad = verdict["bad"] + sverdict["bad"] + iverdict["bad"]
     nviol, known = H.report(ctx, verdict["bad"], lambda i: cases[i], trace)
     nviol2, known2 = H.report(ctx, sverdict["bad"], lambda i: sel_cases[i], strace)
+    nviol3, known3 = H.report(ctx, iverdict["bad"], lambda i: {"cfg": icases[i]["cfg"], "ops": icases[i]["ops"]}, itrace)
+    nviol2, known2 = nviol2 + nviol3, known2 + known3
     cov = {
+        "binding_selftest": sel_selftest,
         "states": states + gr.distinct, "transitions": trans + gr.generated,
         "traces_validated_against_impl": verdict["stats"]["cases"] + sverdict["stats"]["cases"],
         "samples": [cases[0], sel_cases[0], sel_cases[-1]],
         "evaluations": len(cases) + len(sel_cases),
         "distinct_nontrivial": len({H.nontrivial_hash(c) for c in cases if c02.nontrivial(c)}) + sverdict["stats"]["stability"],
-        "rule": "(a) every attribute history of <= 3 calls generated by TLC from AttrStore (dense pre-states) plus seeded 200-call histories, "
+        "rule": "(a) every attribute history of <= 3 calls generated by TLC from AttrStore (dense pre-states) plus seeded 200-call histories, plus histories that fill one index leaf "
+                "(186..380 attributes, capacity 371), delete a few and insert again, "
                 "each replayed under rebalancing configurations {off,on,lazy x3,incremental x2,smart x2} (2 per history in quick, all 9 in thorough) "
                 "with configuration toggles inserted mid-history, judged against AttrMap (equal to the model = equal to the default run); "
+                "(a') the name index (B-tree v2) itself at the real node size under immediate/rebalancing/lazy/incremental mode: seeded histories that "
+                "fill the leaf beyond half, delete, write out and load back, judged against KVIndex by C14Trace; "
                 "(b) every sequence of 2 (3 thorough) selector decisions over raw mode x confidence {0,.5,.69,.7,.71,1} x dt {0,P-1,P,P+1} under 5-6 "
                 "constraint settings generated by TLC from Selector, plus random sequences of up to 25 decisions, replayed on the real "
                 "ConfigSelector with a fake clock, plus the real rule-based strategy on random feature vectors",
+        "index_stats": iverdict["stats"], "index_cases": len(icases),
         "selector_models": per, "selector_stats": sverdict["stats"], "content_stats": verdict["stats"],
         "known_findings_matched": known + known2, "exhaustive": False,
     }
@@ -94,6 +178,10 @@ def replay(ctx, body):
         path = ctx.write_cases([case])
         trace, _ = ctx.drive("c19sel", path)
         verdict, _ = ctx.validate("C19SelTrace.tla", "C19Sel_trace.cfg", trace)
+    elif "mode" in case.get("cfg", {}):
+        path = ctx.write_cases([case])
+        trace, _ = ctx.drive("c14", path)
+        verdict, _ = ctx.validate("C14Trace.tla", "C14_trace.cfg", trace)
     else:
         path = ctx.write_cases([case])
         trace, _ = ctx.drive("c02", path)
